@@ -205,9 +205,14 @@ class LookupWorld:
 
     # ---- a worker: one get_template call
     def worker(self, name, u):
+        after = list(self.sc.get("after", {}).get(name, []))
+
         def f():
             S = self.S
-            S.point({"label": "start", "fp": ((("file", u), False),)})
+            op = {"label": "start", "fp": ((("file", u), False),)}
+            if after:       # a follow-up request: it starts only when those calls have returned
+                op["enabled"] = lambda: all(S.ths[a].done for a in after)
+            S.point(op)
             S.log({"th": name, "ev": "start"})
             e = {"th": name, "ev": "fin", "res": "", "obj": 0, "ver": 0, "complete": False}
             try:
@@ -373,7 +378,7 @@ def run_lookup_execution(sc, chooser, root, after_step=None, timeout=20.0):
         if after_step is not None:
             S.after_step = lambda s, n: after_step(w, s, n)
         status = S.run()
-        S.log({"th": "sched", "ev": "end", "status": status, "blocked": list(S.blocked)})
+        S.log({"th": "sched", "ev": "end", "status": status, "blocked": list(S.blocked), "mutex": w.lock.owner or "free"})
         excs = {n: repr(S.ths[n].exc) for n in S.order if S.ths[n].exc is not None}
         return {"events": S.trace, "status": status, "decisions": S.decisions, "worker_exc": excs}
     finally:
@@ -448,9 +453,11 @@ def lookup_scenarios(thorough):
     two = {"t1": 1, "t2": 1}
     S = []
 
-    def add(name, threads, files, env, fsc=True, warm=False, mode="sleep", bound=None, limit=None, must=True):
-        S.append({"name": name, "mode": mode, "bound": bound, "limit": limit, "must": must,
-                  "sc": {"threads": threads, "files": files, "fsc": fsc, "warm": warm, "env": env}})
+    def add(name, threads, files, env, fsc=True, warm=False, mode="sleep", bound=None, limit=None, must=True, after=None):
+        sc = {"threads": threads, "files": files, "fsc": fsc, "warm": warm, "env": env}
+        if after:
+            sc["after"] = after
+        S.append({"name": name, "mode": mode, "bound": bound, "limit": limit, "must": must, "sc": sc})
     add("2t-same-first", two, ["ok"], [])
     add("2t-same-first-plain", two, ["ok"], [], mode="bounded", bound=99)       # no reduction: cross-check of the sleep sets
     add("2t-same-modify-late", two, ["ok"], [T, T, M])
@@ -466,6 +473,14 @@ def lookup_scenarios(thorough):
     add("2t-nochecks", two, ["ok"], [M], fsc=False)
     add("2t-nochecks-warm", two, ["ok"], [T, T, M], fsc=False, warm=True)
     add("3t-same-first-pb2", {"t1": 1, "t2": 1, "t3": 1}, ["ok"], [], mode="bounded", bound=2)
+    # a THIRD request after two racing first requests (t3 starts when t1 and t2 have returned): another URI, the same URI,
+    # and a reload after a modification -- whatever the race left behind (a leaked lock) must not block it
+    follow = {"t3": ["t1", "t2"]}
+    add("2t-race-then-other-uri", {"t1": 1, "t2": 1, "t3": 2}, ["ok", "ok"], [], after=follow)
+    add("2t-race-then-same-uri", {"t1": 1, "t2": 1, "t3": 1}, ["ok"], [], after=follow)
+    add("2t-race-then-reload", {"t1": 1, "t2": 1, "t3": 1}, ["ok"], [T, T, M], after=follow)
+    add("2t-stale-race-then-other-uri", {"t1": 1, "t2": 1, "t3": 2}, ["ok", "ok"], [T, T, M], warm=True, after=follow)
+    add("3t-two-uris-pb2", {"t1": 1, "t2": 1, "t3": 2}, ["ok", "ok"], [], mode="bounded", bound=2)
     if thorough:
         # beyond the quick tier: complete where the limit allows, otherwise a depth-first sample (recorded as incomplete)
         add("2t-same-modify-mid", two, ["ok"], [T, T, M, T, T], must=False)
@@ -491,7 +506,8 @@ def negative_controls(traces):
         evs = t["events"]
         fins = [i for i, e in enumerate(evs) if e["ev"] == "fin" and e.get("res") == "tmpl"]
         rels = [i for i, e in enumerate(evs) if e["ev"] == "release"]
-        if not fins or not rels:
+        acqs = [i for i, e in enumerate(evs) if e["ev"] == "acquire"]
+        if not fins or not rels or not acqs or evs[-1].get("ev") != "end" or evs[-1].get("status") != "ok":
             continue
         a = copy.deepcopy(t)
         a["id"] = 10 ** 6 + 1
@@ -511,7 +527,11 @@ def negative_controls(traces):
         acq = [i for i, e in enumerate(d["events"]) if e["ev"] == "acquire"]
         d["events"][acq[0]]["got"] = False                     # entered the critical section without the mutex
         d["nc"] = "acquire-not-got"
-        ncs += [a, b, c, d]
+        e = copy.deepcopy(t)
+        e["id"] = 10 ** 6 + 5
+        e["events"][-1]["mutex"] = "t1"                        # the lock left held when everybody has returned
+        e["nc"] = "mutex-held-at-end"
+        ncs += [a, b, c, d, e]
         break
     return ncs
 
@@ -691,11 +711,16 @@ def check_lookup_r(run, thorough, tw):
 def _job(job):
     import time
     t0 = time.time()
-    if job["type"] == "dfs":
-        o = _dfs_job(job)
-    else:
-        from . import c16_render
-        o = c16_render._render_job(job)
+    try:
+        if job["type"] == "dfs":
+            o = _dfs_job(job)
+        else:
+            from . import c16_render
+            o = c16_render._render_job(job)
+    except Exception as e:  # noqa -- whatever the code under test did to the harness is reported, not raised
+        import traceback
+        o = {"name": job["name"], "execs": [], "redundant": 0, "complete": False, "bad_status": 0, "solo": None,
+             "error": "harness exception in job: %s: %s\n%s" % (type(e).__name__, e, traceback.format_exc()[-1500:])}
     o["wall"] = round(time.time() - t0, 1)
     return o
 
@@ -746,17 +771,24 @@ def check(run):
                 _dbg(run, "traces validated")
                 collect_mc(run, mc)
                 _dbg(run, "model checking collected")
-            except MachineryError as e:
-                # mutated code can break the machinery's expectations (vacuity, solo renders, ...) although a rejected
-                # trace already convicts it: harvest the pending verdicts; a violation, if any, is the verdict
+            except mp.TimeoutError:
+                raise
+            except Exception as e:  # noqa
+                # mutated code can break the machinery's expectations (vacuity, solo renders, shapes of traces ...) although
+                # a rejected trace already convicts it: harvest the pending verdicts; a violation, if any, is the verdict;
+                # without one this is a machinery failure (exit 2), never a verdict
+                import traceback
+                tb = traceback.format_exc()
                 for f in finishers:
                     try:
                         f()
-                    except MachineryError:
+                    except Exception:  # noqa
                         pass
                 if not run.violations:
-                    raise
-                run.extra["machinery_complaint_after_violation"] = str(e)[:300]
+                    if isinstance(e, MachineryError):
+                        raise
+                    raise MachineryError("harness exception %s: %s\n%s" % (type(e).__name__, e, tb[-2500:]))
+                run.extra["machinery_complaint_after_violation"] = ("%s: %s" % (type(e).__name__, e))[:300]
     except mp.TimeoutError:
         raise MachineryError("schedule exploration did not finish in time")
     finally:
